@@ -64,6 +64,31 @@ func c04(c *Ctx) {
 	r.NotDecided = []string{"'every single-bit flip is refused' beyond the fact that acceptance requires the SHA-1 comparison over exactly the returned bytes (modulo SHA-1 collisions)",
 		"the sticky decoder error after the inner Pop*s is never consulted: with the length bound in place it cannot cause acceptance (recorded as an assumption)"}
 	c.errorsKept("R04.X", "the packet path (messages, transport, mode, aes_ige): a refusal stays a refusal", 8, inPkgs(load.MsgPkg, load.TransPkg, load.ModePkg, load.IgePkg))
+	// which parser a frame goes to is decided by the frame: a packet with a non-zero key id is never read as a plain
+	// message (the plain parser does not look at the key id at all), whatever state the session is in
+	r.Rule("R04.R", "transport.ReadMsg hands a frame to DeserializeUnencrypted only behind the false result of isPacketEncrypted(frame): session state (no key yet) does not route an altered or foreign key id to the parser that ignores it", 1)
+	if f := c.fn("R04.R", load.TransPkg, "*transport", "ReadMsg"); f != nil {
+		var pass []an.Edge
+		for _, i := range an.Ifs(f) {
+			cd, ok := an.Classify(i)
+			if ok && cd.Kind == "call:"+load.TransPkg+".isPacketEncrypted" {
+				pass = append(pass, cd.EdgeWhen(false))
+			}
+		}
+		var plain []ssa.Instruction
+		for _, cs := range an.Calls(f) {
+			if strings.HasSuffix(cs.Name, "messages.DeserializeUnencrypted") {
+				plain = append(plain, cs.Instr)
+			}
+		}
+		if len(pass) == 0 || len(plain) == 0 {
+			r.Undecide("R04.R", "route:by-the-packet", c.pos(f.Pos()), sprintf("%d test(s) of isPacketEncrypted, %d call(s) of the plain parser", len(pass), len(plain)))
+		} else {
+			un := an.Guarded(f, pass, plain)
+			r.Check(len(un) == 0, "R04.R", "route:by-the-packet", c.pos(plain[0].Pos()), sprintf("%d call(s) of the plain parser, %d reachable without the packet having been found unencrypted", len(plain), len(un)))
+		}
+	}
+
 	r.Rule("R04.G", "acceptance guards: key id, msg_key over decrypted[0:32+len], msg_id parity {1,3} (encrypted, plain, transport), exact length of plain packets, errors propagated, body = declared-length bytes", 9)
 	r.Rule("R04.B", "every allocation / slice sized by packet data is bounded on all reachable grid points (negative, oversized, truncated)", 3)
 	r.Rule("R04.E", "every exit of the three readers that returns no message returns a certainly non-nil error", 12)
